@@ -71,6 +71,13 @@ func Spec(id, tier string) *core.CheckSpec {
 				core.Batch{Engine: "chainsim", Label: "director-leak", Seconds: sec(20, 300), Opt: core.Options{Params: p("director", "leak")}},
 				core.Batch{Engine: "chainsim", Label: "director-churn", Seconds: sec(20, 300), Opt: core.Options{Params: p("director", "churn")}})
 		}
+		if id == "C03" {
+			// onboarding validators (eligibility < activation) are where the age and queue rules differ
+			cs.Batches[0].Seconds = sec(40, 600)
+			cs.Batches[1].Seconds = sec(20, 300)
+			cs.Batches = append(cs.Batches,
+				core.Batch{Engine: "chainsim", Label: "director-churn", Seconds: sec(20, 300), Opt: core.Options{Params: p("director", "churn")}})
+		}
 		if !q && id != "C13" {
 			cs.Batches = append(cs.Batches, core.Batch{Engine: "chainsim", Label: "mainnet-preset", Seconds: 240, Opt: core.Options{Params: p("preset", "mainnet")}})
 		}
